@@ -165,6 +165,27 @@ CHECKS = {
              "Equality with geometry over all placements is not re-proved (C09 + B6).",
         design_ref="DESIGN.md section 4, C10",
         note=TB_COMMON + " OnceCell::get_or_init initialises at most once; relies on C09 for the per-piece sets."),
+    "C11": dict(
+        category="other",
+        technique="static analysis: reader/writer table extraction from MIR decision tables and guard conditions (piece, side, castling letters), constant folding of "
+                  "from_char against the Display tables, capture-group numbering of the decoded regex literal vs. the State components it feeds, dominance order of "
+                  "the writer's fields, rejection-point inventory of the readers",
+        text="Decides the reader/writer agreement clauses F1-F8, each necessary for the round trip: the 12 piece tokens, side letters, castling letters and their "
+             "KQkq order, square text (file letter, rank digit), regex group k feeding State component k unmodified, board orientation of writer and reader cursor, "
+             "usize counters on both sides, and that the readers reject only at the reviewed failure points. Equality after the round trip over all positions and "
+             "strings, and the merging of empty runs, are NOT decided.",
+        design_ref="DESIGN.md section 4, C11",
+        note=TB_COMMON + " F8 freezes the number of rejection points per reader (7/4/1/1): a sound extra validation would be reported and needs review."),
+    "C12": dict(
+        category="other",
+        technique="static analysis: guard extraction for the 42 character arms of the SAN scanner, closure-capture resolution of the 8 field tests of MoveQuery::test with "
+                  "must-pass-through on every non-false return, reachability order of the scanner stages, writer call-sequence comparison",
+        text="Decides structural clauses Q1-Q6: every scanner character sets the rank/file/piece it denotes (letters from the writer's own table), UCI promotion letters, "
+             "each query field compared with the like-named move attribute and nothing but `false` returned before all 8 tests ran, right-to-left stage order with left-over "
+             "rejection and Pawn default, castling by prefix (O-O-O before O-O), LAN and bestmove writers emitting origin, destination, lower-case promotion. Uniqueness "
+             "of the resolved move over all positions/spellings is NOT decided.",
+        design_ref="DESIGN.md section 4, C12",
+        note=TB_COMMON + " Relies on C20 for the move accessors."),
 }
 
 NOT_BUILT_REASON = "check not built yet (see DESIGN.md for the plan)"
